@@ -206,6 +206,9 @@ def _tokens(t, out=None):
     out = collections.Counter() if out is None else out
     if isinstance(t, tuple) and t:
         if t[0] == "app":
+            if any(isinstance(x, tuple) and x and x[0] == "closure" for x in t[2:]):
+                # a closure handed to a call that was not evaluated: what it does to the style is not in the term
+                raise Unrecognised(f"{t[1]} with a closure argument was not evaluated")
             plain = tuple((x[1].split("::")[-1] if x[0] == "enum" else x[1]) for x in t[2:] if isinstance(x, tuple) and x and x[0] in ("enum", "bool"))
             out[(t[1].split("::")[-1], plain)] += 1
             for x in t[2:]:
